@@ -253,6 +253,16 @@ func (c *Conn) serve() {
 }
 
 func (c *Conn) pushFramesLoop() {
+	// failf panics; this goroutine is outside the recover of serve() and of the
+	// server's connection handler, so an unsupported pixel format must end the
+	// connection here, not the process.
+	defer func() {
+		if e := recover(); e != nil {
+			log.Debugf("Client disconnect: %v", e)
+			c.c.Close()
+		}
+	}()
+
 	for {
 		select {
 		case ur, ok := <-c.fbupc:
